@@ -513,6 +513,9 @@ impl Monitor for C11 {
             _ => self.pair_case(idx, obs),
         }
     }
+    fn boot_mut(&mut self) -> Option<&mut Xstate> {
+        Some(&mut self.boot)
+    }
     fn describe(&mut self, idx: u64) -> String {
         format!("meta-evaluation case #{}", idx)
     }
